@@ -111,7 +111,7 @@ def check(case: dict):
 
     g, sol = _resolve(case)
     opts = tuple(case["opts"])
-    sm = L.solved(g, sol)
+    sm = L.solved(g, sol, dtype=L.provenance(case, g))
     got = call("C17:process", process_maze_rasterized_input_target, sm, remove_isolated_cells=opts[0], extend_pixels=opts[1], endpoints_as_open=opts[2])
     import torch
 
@@ -129,7 +129,7 @@ def check_dataset(case: dict):
     from maze_dataset.dataset.rasterized import RasterizedMazeDataset
 
     n, items, opts = case["n"], case["items"], tuple(case["opts"])
-    base = MazeDataset(MazeDatasetConfig(name="r", grid_n=n, n_mazes=len(items)), [L.solved(it["g"], it["sol"]) for it in items])
+    base = MazeDataset(MazeDatasetConfig(name="r", grid_n=n, n_mazes=len(items)), [L.solved(it["g"], it["sol"], dtype=L.provenance([case, i], it["g"])) for i, it in enumerate(items)])
     added = {"remove_isolated_cells": opts[0], "extend_pixels": opts[1], "endpoints_as_open": opts[2]}
     if case.get("omit_default") and opts == (True, True, False):
         added = None
